@@ -221,7 +221,7 @@ fn harness_err<E: std::fmt::Display>(e: E) -> Fail {
 
 static SCRATCH: AtomicU64 = AtomicU64::new(0);
 
-fn scratch_dir() -> String {
+pub fn scratch_dir() -> String {
     let base = if std::path::Path::new("/dev/shm").is_dir() { "/dev/shm".to_string() } else { "/verif/harness/target".to_string() };
     let dir = format!("{base}/verif-scratch-{}/{}", std::process::id(), SCRATCH.fetch_add(1, Ordering::Relaxed));
     let _ = std::fs::remove_dir_all(&dir);
